@@ -16,6 +16,45 @@ CHECKS = {
              "Kemeny-sum glue is executed natively on enumerated real datasets (n<=3,m<=2 exhaustive + n=4 samples) with the scheme "
              "symbolic [shape-enumerated x solver-quantified].",
         design="4/C02"),
+    "C01": dict(
+        technique="fork-mode symbolic execution of the real get_kemeny_score with 12 symbolic penalties (z3 refutes impl != "
+                  "definition per enumerated dataset/candidate shape); merge-mode bounded symbolic execution of __merge",
+        text="For every enumerated (dataset, candidate) shape with n<=3 (m<=2; thorough m<=3, n=4) the real scoring code is run "
+             "with the 12 penalties symbolic and z3 refutes 'exists a valid scheme with impl != definition'; candidates lacking an "
+             "element must raise the dedicated exception; the merge-sort counting kernel is checked for all sorted arrays up to "
+             "3+3 with unwinding and index obligations.",
+        design="4/C01"),
+    "C03": dict(
+        technique="fork-mode symbolic execution of every algorithm configuration (scheme symbolic, pivots and ILP optima as "
+                  "nondeterministic choices, all feasible paths); merge-mode check of the bucket renumbering kernels",
+        text="All 19 configurations are executed on enumerated datasets (n<=3 exhaustive for light algorithms, samples for "
+             "BioConsert-based ones and n=4) with the scheme symbolic; every feasible path (every pivot sequence, every optimum "
+             "the ILP stand-in may return) must yield a well-formed consensus; _change_bucket/_add_bucket are proved to keep "
+             "dense numbering from any dense vector (n<=4, thorough 5).",
+        design="4/C03"),
+    "C04": dict(
+        technique="fork-mode symbolic execution of every configuration with z3 refuting |reported - definition| > 1e-6 on each "
+                  "path; merge-mode inductive checks of BioConsert's score bookkeeping kernels",
+        text="On every feasible path of every configuration the reported Kemeny score equals the definition score of each "
+             "returned ranking for all penalties compatible with the path; BioConsert's initial score and incremental deltas "
+             "are checked inductively from any dense state and any cost table (n<=4, thorough 5); the PuLP stand-in is compared "
+             "with real PuLP+CBC on corner instances.",
+        design="4/C04"),
+    "C08": dict(
+        technique="merge-mode bounded symbolic execution of the BioConsert kernels as an inductive step (any dense ranking, any "
+                  "mirror-consistent cost table) + fork-mode end-to-end runs with z3 refuting an improving single move",
+        text="Inductive: searches, moves and one iteration of the local-search loop body are verified from any state satisfying "
+             "the invariant (n<=4, thorough 5), which covers local searches of any length; end to end: for each returned ranking "
+             "of BioConsert/BioCo variants on enumerated datasets the solver refutes a single-element move gaining > 0.001 over "
+             "all valid schemes on the path.",
+        design="4/C08"),
+    "C09": dict(
+        technique="fork-mode symbolic execution of BioConsert with recorded starters; z3 refutes score(result) > score(start) per "
+                  "path; merge-mode check of the per-departure glue with a contract stub for the local search",
+        text="For each configuration (no starters, Copeland, Borda/BioCo, KwikSort with arbitrary pivots, PickAPerm, two at once) "
+             "and each enumerated dataset, on every path the result is at most every starting point and all returned rankings "
+             "share a score, for all valid schemes on the path.",
+        design="4/C09"),
 }
 
 NOT_YET = "check not built yet in this session (see DESIGN.md section 8 for the build order)"
